@@ -157,6 +157,13 @@ static void check(const uint8_t *in, const unsigned n, const int relaxedCfg)
     vf_observe("ok", ok); vf_observe("status", st); vf_observe("more", more);
     vf_observe("uri", sbufHash(hp.requestUri())); vf_observe("method", hp.method().id());
 
+    if (onlyZeroVersion && accepted) {
+        // Characterisation of the KNOWN finding, so that it cannot hide a different defect in the same input class: the
+        // finding is that such a version token makes the parser report major version 0 (and then treat the line as a
+        // version-less one). A line of this class accepted with any OTHER major version is a new violation: this message is
+        // not among the ones listed for C22-zero-version in known_findings.json.
+        vf_assert(hp.messageProtocol().major == 0, "zero-version class: an accepted line is reported with major version 0 (anything else is a NEW defect, not the known finding)");
+    }
     vf_assert(accepted == (r.verdict == V_ACCEPT), "request line accepted iff it matches the grammar (plus documented tolerances in relaxed mode)");
     if (accepted) {
         const SBuf &img = hp.method().image();
